@@ -349,4 +349,24 @@ theorem run_configuration_wf_flat (ops : List Build.Op) (hv : Build.Valid {} ops
     (until_ maxLoop : Nat) (lazy_ useCache strict : Bool) : WFCfg (Build.runCfg out until_ maxLoop lazy_ useCache strict) :=
   Build.run_config_wf_flat hv hf h until_ maxLoop lazy_ useCache strict
 
+/-- **… and for scenarios with groups the executable uniformity check suffices**: uniform connection paths give uniform trigger
+paths (`Build.uniformT_of_uniform`: a trigger connection and the pair's `input_delays` entry have one shape), so for every scenario
+built by valid calls whose tables pass `uniformB` - the complete decision of `Uniform`, which every generated scenario outside finding
+D7 passes (`w.cychyp`) - the run configuration satisfies `WFCfg` and `WFShape` -/
+theorem run_configuration_wf_of_uniformB (ops : List Build.Op) (hv : Build.Valid {} ops) (hub : uniformB (Build.build ops).sims = true)
+    (orc : List Nat) {out : List SimCfg} (h : cacheTriggeringAncestors (Build.build ops).sims orc = .ok out)
+    (until_ maxLoop : Nat) (lazy_ useCache strict : Bool) :
+    WFCfg (Build.runCfg out until_ maxLoop lazy_ useCache strict) ∧ WFShape (Build.runCfg out until_ maxLoop lazy_ useCache strict) :=
+  Build.run_config_wf_of_uniformB hv hub h until_ maxLoop lazy_ useCache strict
+
+/-- non-vacuity: a grouped scenario (two simulators in one group, a plain trigger connection and a weak one back) passes `uniformB`,
+is accepted, and its ancestor table is computed -/
+example :
+    let d : SimDecl := { ty := .hybrid, group := [0], cls := (parseAttrs { anyInputs := false, attrs := some [0, 1, 2, 3], trigger := some [1], nonPersistent := some [3] } .hybrid).getD default }
+    let ops : List Build.Op := [.start d, .start d, .connect { src := 0, seid := 0, dst := 1, deid := 0, pairs := [(3, 1)] },
+      .connect { src := 1, seid := 0, dst := 0, deid := 0, pairs := [(3, 1)], weak := true }]
+    uniformB (Build.build ops).sims = true ∧ ensureNoCycles (Build.build ops).sims [] = .ok ∧
+      (cacheTriggeringAncestors (Build.build ops).sims []).toOption.isSome = true := by
+  decide
+
 end Mosaik.C07
